@@ -148,6 +148,11 @@ func GenStep(rng *rand.Rand, thorough bool) (Step, []string) {
 // $') and the 4.8K replacement are quadratic in the number of matches, so the number of
 // replacements on larger inputs is limited.
 func Normalize(rng *rand.Rand, st *Step) {
+	if st.In.Unit == "x" && st.In.Reps >= 40 && st.StartAt > st.In.Reps-40 {
+		// a search that starts inside a run of x's sees only the rest of the run: keep that rest clearly
+		// over the timed spec's limit too (13..39 x's are neither clearly fast nor clearly too slow)
+		st.StartAt = st.In.Reps - 40
+	}
 	n := len(st.In.String())
 	if st.Op == "Replace" && st.Repl%len(Replacements) == len(Replacements)-1 && n > 200 && (st.Count < 0 || st.Count > 5) {
 		st.Count = 1 + rng.Intn(5)
